@@ -139,6 +139,7 @@ def to_term(cfg, ops, ob):
     t_closed = None
     hb_ann = None         # the heartbeat interval the server announced
     t_quiet = None        # since when the authenticated connection has neither sent anything nor been pinged
+    awaiting_pong = False
     for op, o in zip(ops, ob["ops"]):
         fr = o["conns"].get("1", {"frames": [], "closed": False})
         if fr.get("closed") and t_closed is None:
@@ -150,9 +151,14 @@ def to_term(cfg, ops, ob):
                 hb_ann = sl.frame_get(f, "heartbeat_interval")
             if "undecodable" not in f and sl.frame_name(f) == "PING":
                 t_quiet = None
+                awaiting_pong = True      # the keep-alive task now waits (3 intervals) for the PONG: no further PING is due
         if authed and t_closed is None and op["tin"] != "PRE":
+            if op["t"] == "pong" and op.get("k") == 1 and o.get("note") is None:
+                awaiting_pong = False
             if op["t"] in ("send", "pong") and op.get("k") == 1:
                 t_quiet = o["t_end"]
+            if awaiting_pong:
+                t_quiet = None
             elif t_quiet is None and not any("undecodable" not in f and sl.frame_name(f) == "PING" for f in fr["frames"]):
                 pass
             if t_quiet is not None and hb_ann and o["t_start"] > t_quiet + 2 * hb_ann + 20:
